@@ -21,13 +21,13 @@ func init() {
 	register(&Check{
 		ID: "C16", Level: "exploration", Primary: "calls", EvalCount: "calls",
 		Rule: "every call of an exported helper/constructor runs under recover(); a case is distinct by (function, argument-shape signature): " +
-			"ConvertString (tag,first length byte,#following bytes) / wrapper (tag,length class); SID (revision,authority) pairs; NewEntry map shapes; " +
+			"ConvertString (tag,first length byte,#following bytes) / wrapper (tag,length class) / several wrapped arguments of different length classes in one call (every ordered pair over 13 lengths 0..70000, random 3..5-tuples); SID (revision,authority) pairs; NewEntry map shapes; " +
 			"constructor x ordered option list; 33 odd strings in every string-typed Mux registration option; the default result code of every response constructor called without WithResponseCode (checked on the wire); non-trivial = it reached the function body with that shape",
 		Assume: []string{"panics are observed through recover() in the calling goroutine; New*Response constructors are exercised inside a live handler (the only way to own a *Request)"},
 		Phases: func(tier string, seed int64) []Phase {
 			return []Phase{{Name: "helpers", Run: c16Helpers}, {Name: "constructors", Run: c16Constructors}}
 		},
-		MinObserved: []string{"calls", "sid_pairs", "response_constructor_calls", "default_result_codes_checked"},
+		MinObserved: []string{"calls", "sid_pairs", "response_constructor_calls", "default_result_codes_checked", "convertstring_multi_argument_inverse_checked"},
 	})
 }
 
@@ -121,6 +121,38 @@ func c16Helpers(c *Ctx) {
 		}
 	}
 	c.Sample(map[string]any{"fn": "ConvertString", "arg_hex": "0482012c<300 bytes>", "expect": "the 300 bytes"})
+	// several wrapped arguments of different length classes in ONE call: each result is its own argument's payload
+	mlens := []int{0, 1, 2, 5, 127, 128, 200, 255, 256, 300, 65535, 65536, 70000}
+	multiCase := func(ls []int) {
+		var args, want []string
+		for _, n := range ls {
+			pl := r.Bytes(n)
+			tag := pick(r, []int{4, 27})
+			args = append(args, string(append(append([]byte{byte(tag)}, sber.EncodeLength(n)...), pl...)))
+			want = append(want, string(pl))
+		}
+		out, err := conv(fmt.Sprintf("wrapmulti/%v", ls), args...)
+		c.Count("convertstring_multi_argument_inverse_checked", 1)
+		ok := err == nil && len(out) == len(want)
+		for k := 0; ok && k < len(want); k++ {
+			ok = out[k] == want[k]
+		}
+		if !ok {
+			c.Violate("ConvertString does not invert BER wrapping of several arguments", fmt.Sprintf("payload lengths %v: %d results, err=%v", ls, len(out), err), map[string]any{"payload_lengths": ls})
+		}
+	}
+	for _, a := range mlens {
+		for _, b := range mlens {
+			multiCase([]int{a, b})
+		}
+	}
+	for i := 0; i < c.N(200, 2000); i++ {
+		var ls []int
+		for k, n := 0, 3+r.Intn(3); k < n; k++ {
+			ls = append(ls, pick(r, mlens))
+		}
+		multiCase(ls)
+	}
 
 	// ---- SID round trip
 	step := 1
